@@ -262,6 +262,32 @@ def loader_points(template, tier, seed, root):
         return list(ex.map(one, list(enumerate(points))))
 
 
+def limiter_points():
+    """The limiter's own arithmetic (polling quantum = period * 200 / number ms, window = now - period) for counts and periods up to the
+    limits of their types, through the ratelimit probe with a short call time-out: the first call either returns, is still (rightly)
+    waiting when the time-out strikes, or the limit is refused - a panic is a crash."""
+    import concurrent.futures as cf
+    periods = ["2s", "1h", "52w", "1000w", "92233720368547758s", "92233720368547759s", "9223372036854775807s", "18446744073709551615s", "30500568904943w"]
+    numbers = [1, 2, 20, 1000000, 4294967295]
+    pts = [(n, p) for n in numbers for p in periods]
+
+    def one(np):
+        n, p = np
+        r = probe("ratelimit", {"limits": [[n, p]], "calls": [0, 0], "call_timeout_ms": 250}, timeout=60)
+        if r.get("hung"):
+            out, rc = "hang", -999
+        elif r.get("crashed"):
+            out, rc = "crash", r.get("rc") if r.get("rc") is not None else -999
+        elif r.get("ok"):
+            out, rc = "running", 0
+        else:
+            out, rc = "error_exit", 1
+        return {"e": "Start", "hazard": "limiter arithmetic: %d per %s" % (n, p), "outcome": out, "message": out == "error_exit", "must": "either", "rc": rc}, \
+            ({"probe.json": json.dumps({k: v for k, v in r.items() if k != "stderr"}) + "\n" + (r.get("panic") or "")} if out in ("crash", "hang") else None)
+    with cf.ThreadPoolExecutor(max_workers=12) as ex:
+        return list(ex.map(one, pts))
+
+
 def classify(run):
     rc, err = run["rc"], run["stderr_tail"]
     if run["hung"]:
@@ -313,7 +339,7 @@ def run(ctx):
         specs.append(flowcheck.prepare(dict(tag="C19/m%04d" % len(specs), certs=[cert], attempts=1, timeout=40, cfg_mutator=wrap(),
                                             meta={"family": "field mutation", "hazard": name, "must": "either"})))
     results = flows.run_many(specs, workers=12)
-    lpoints = loader_points(template, ctx.tier, ctx.seed, fresh_dir("C19", "loader"))
+    lpoints = loader_points(template, ctx.tier, ctx.seed, fresh_dir("C19", "loader")) + limiter_points()
     owner = [None] * n_period
     for i, x in enumerate(results):
         run0 = x["runs"][0]
